@@ -113,6 +113,26 @@ def mutate(r, data, fields, img=None):
     return bytes(b), desc
 
 
+PAYLOAD_BASE = 1000000      # mutation indices from here on are payload header edits (kept apart so the other streams stay what they were)
+
+
+def mutate_payload(r, data, img):
+    """the first bytes of a *compressed* block's payload are the codec's own header (lzma: properties, uncompressed size; xz: stream
+    flags and block header; zstd / lz4: frame and block descriptors): write size-like values there - the stream behind stays intact"""
+    pf = [f for f in img.payload_fields if f[2] >= 13 and f[1] + f[2] <= len(data)]
+    if not pf:
+        return None, None
+    meta = [f for f in pf if f[0] == "meta"]
+    what, off, ln = r.choice(meta) if meta and r.random() < 0.7 else r.choice(pf)
+    o = r.choice([5, 5, 5, 9, 0, 1, 4, 8]) if img.comp == 2 else r.choice([0, 1, 2, 4, 5, 6, 8, 9])
+    width = r.choice([4, 4, 2, 1])
+    new = r.choice([8200, 8193, 0x2001, 0x10000, 0x1000000, 0x7FFFFFFF, 0, 0xFFFFFFFF, 4097, 0x100000]) & ((1 << (8 * width)) - 1)
+    b = bytearray(data)
+    old = int.from_bytes(b[off + o:off + o + width], "little")
+    b[off + o:off + o + width] = new.to_bytes(width, "little")
+    return bytes(b), ["%s block payload @%d: u%d at +%d %#x -> %#x" % (what, off, 8 * width, o, old, new)]
+
+
 NV = 8
 
 
@@ -189,9 +209,18 @@ def work(a):
             paths = {"file": [os.fsdecode(p) for p, n in img.tree.items() if n.type == sqfsdec.T_FILE and p],
                      "dir": ["/"] + [os.fsdecode(p) for p, n in img.tree.items() if n.type == sqfsdec.T_DIR and p],
                      "any": [os.fsdecode(p) for p in img.tree if p]}
-            for i in range(nmut):
+            idx = list(range(min(nmut, PAYLOAD_BASE)))
+            if nmut > PAYLOAD_BASE:
+                idx = [nmut - 1]
+            elif not sweep:
+                idx += [PAYLOAD_BASE + k for k in range(6)]
+            for i in idx:
                 mr = rng(seed, "mut", i)
-                if sweep:
+                if i >= PAYLOAD_BASE:
+                    bad, desc = mutate_payload(mr, data, img)
+                    if bad is None:
+                        break
+                elif sweep:
                     bad, desc = mutate_sweep(mr, data, fields, i)
                     if bad is None:
                         break
